@@ -92,7 +92,7 @@ Fixpoint node_eqb (a b : node) : bool :=
 Inductive defect :=
 | DirNames         (* dir-entry-names-not-hashed *)
 | DirLinkTarget    (* dir-symlink-target-not-hashed *)
-| RootKind         (* root-kind-not-hashed: a file / a symlink hashes like a directory holding the same leaves *)
+| RootKind         (* root-kind-not-hashed: a file / a top-level symlink hashes like a directory with the same byte runs *)
 | DirNesting       (* dir-nesting-not-hashed: which directory an entry sits in; empty directories *)
 | FileBoundaries   (* dir-file-boundaries-not-hashed: where one file ends and the next starts; empty files *)
 | MarkerAlias.     (* symlink-marker-aliases-file-content: the \x02 written for a symlink vs a file byte \x02 *)
@@ -151,21 +151,24 @@ Definition segs_eqb (p q : str * list str) : bool :=
   str_eqb (fst p) (fst q) && list_eqb str_eqb (snd p) (snd q).
 Definition is_dir (n : node) : bool := match n with Dir _ => true | _ => false end.
 
+(* a pair in which at least one side is a directory *)
+Definition classify_dirs (a b : node) : option defect :=
+  let la := tleaves a in
+  let lb := tleaves b in
+  if is_dir a && is_dir b && eq_nameless true a b then Some DirNames
+  else if is_dir a && is_dir b && eq_nameless false a b then Some DirLinkTarget
+  else if negb (is_dir a && is_dir b) && segs_eqb (segs la) (segs lb) then Some RootKind
+  else if list_eqb leaf_eqb la lb then Some DirNesting
+  else if segs_eqb (segs la) (segs lb) then Some FileBoundaries
+  else if (has2 la || has2 lb) && str_eqb (stream a) (stream b) then Some MarkerAlias
+  else None.
+
 Definition defect_class (a b : node) : option defect :=
   match a, b with
   | File _, File _ => None
   | Link _, Link _ => None
   | File c, Link t | Link t, File c => if str_eqb c (2%N :: t) then Some MarkerAlias else None
-  | _, _ =>
-      let la := tleaves a in
-      let lb := tleaves b in
-      if is_dir a && is_dir b && eq_nameless true a b then Some DirNames
-      else if is_dir a && is_dir b && eq_nameless false a b then Some DirLinkTarget
-      else if negb (is_dir a && is_dir b) && list_eqb leaf_eqb la lb then Some RootKind
-      else if list_eqb leaf_eqb la lb then Some DirNesting
-      else if segs_eqb (segs la) (segs lb) then Some FileBoundaries
-      else if (has2 la || has2 lb) && str_eqb (stream a) (stream b) then Some MarkerAlias
-      else None
+  | _, _ => classify_dirs a b
   end.
 
 (* ---- correspondence cases ---- *)
@@ -178,3 +181,17 @@ Definition check (c : case) : bool :=
   | CStream n obs => str_eqb (stream n) obs
   | CClass a b cls => wf a && wf b && option_eqb defect_eqb (defect_class a b) cls
   end.
+
+(* ---- single changes at any depth (used by the local-sensitivity theorem) ---- *)
+(* editing the content of one file *)
+Inductive file_edit : node -> node -> Prop :=
+| FileEdit c c' : c <> c' -> file_edit (File c) (File c').
+(* adding one entry - a symlink or a non-empty file - to a directory (read right to left: removing it) *)
+Inductive entry_added : node -> node -> Prop :=
+| AddLink es1 k t es2 : entry_added (Dir (es1 ++ es2)) (Dir (es1 ++ (k, Link t) :: es2))
+| AddFile es1 k b c es2 : entry_added (Dir (es1 ++ es2)) (Dir (es1 ++ (k, File (b :: c)) :: es2)).
+(* ... applied to the path itself or to any entry below it *)
+Inductive below (R : node -> node -> Prop) : node -> node -> Prop :=
+| Here a b : R a b -> below R a b
+| Under es1 k n n' es2 : below R n n' -> below R (Dir (es1 ++ (k, n) :: es2)) (Dir (es1 ++ (k, n') :: es2)).
+Definition single_change (a b : node) : Prop := below (fun x y => file_edit x y \/ entry_added x y) a b.
